@@ -645,6 +645,25 @@ func checkSetAlg(c *Ctx, ct *types.Named, fn *ssa.Function, gc *GCNF, name strin
 	if itf != nil {
 		itType = namedOf(itf.Signature.Results().At(0).Type())
 	}
+	// the inner operations that the set's own Add / Contains are (delegation table R20): calling them on the operand's /
+	// the result's inner container directly is the same membership test / insertion
+	innerAdd, innerHas := [2]string{}, [2]string{}
+	for _, ro := range roleTable {
+		if ro.tk == p.TypeKey(ct) && ro.field != "" {
+			switch ro.method {
+			case "Add":
+				innerAdd = [2]string{ro.field, ro.callee}
+			case "Contains":
+				innerHas = [2]string{ro.field, ro.callee}
+			}
+		}
+	}
+	innerOn := func(recv *Term, field string) (*Term, bool) { // recv = (load (fa:<field> X)) → X
+		if field != "" && recv.Op == "load" && len(recv.Args) == 1 && recv.Args[0].Op == "fa" && recv.Args[0].Leaf == field && len(recv.Args[0].Args) == 1 {
+			return recv.Args[0].Args[0], true
+		}
+		return nil, false
+	}
 	loops := map[int]*loopDesc{}
 	var result string
 	setResult := func(t *Term) {
@@ -740,6 +759,15 @@ func checkSetAlg(c *Ctx, ct *types.Named, fn *ssa.Function, gc *GCNF, name strin
 					ld.bad = append(ld.bad, "Contains on the wrong operand or element: "+trunc(noEpoch(x), 160))
 				}
 			}
+			if x.Op == "ext" && x.Leaf == "1" && x.Args[0].Op == "call" && innerHas[1] != "" && strings.HasSuffix(x.Args[0].Leaf, ")."+innerHas[1]) && len(x.Args[0].Args) == 3 {
+				if owner, ok := innerOn(x.Args[0].Args[1], innerHas[0]); ok {
+					if owner.String() == "p:"+other && noEpoch(x.Args[0].Args[2]) == elem {
+						isMember = true
+					} else {
+						ld.bad = append(ld.bad, "membership test on the wrong operand or element: "+trunc(noEpoch(x), 160))
+					}
+				}
+			}
 			if isMember {
 				if pol {
 					member = "in"
@@ -759,6 +787,16 @@ func checkSetAlg(c *Ctx, ct *types.Named, fn *ssa.Function, gc *GCNF, name strin
 		added := false
 		for i, ef := range g.Effects {
 			if nm, args, ok := effDo(ef); ok && i > 0 {
+				if nm == innerAdd[1] && innerAdd[1] != "" && len(args) >= 2 {
+					if owner, ok := innerOn(args[0], innerAdd[0]); ok {
+						if noEpoch(args[1]) != elem {
+							ld.bad = append(ld.bad, "the loop adds something other than the current element")
+						}
+						setResult(owner)
+						added = true
+						continue
+					}
+				}
 				if nm != "Add" || len(args) != 2 {
 					ld.bad = append(ld.bad, "unexpected call in the loop: "+trunc(ef.String(), 120))
 					continue
